@@ -15,8 +15,18 @@ Lemma arg_index_sites_owned : forallb (site_owned registrations) arg_index_sites
 Proof. vm_compute. reflexivity. Qed.
 
 (* constant indexes into the other slices of builtins and router tests are under len guards that imply them *)
-Lemma local_index_sites_safe : forallb local_site_ok local_index_sites = true.
-Proof. vm_compute. reflexivity. Qed.
+Lemma local_index_sites_safe :
+  forallb local_site_ok local_index_sites = true /\ local_sites_exempt_once local_index_sites = true.
+Proof. vm_compute. split; reflexivity. Qed.
+
+(* the two exemptions are for X[0] only (review 2, N4): another index or a slice of the same names is not exempt *)
+Example exemption_is_pinned :
+  local_site_ok (Site "HasPattern:matches" 1 SIndex 2 []) = false /\
+  local_site_ok (Site "hasIntent:classification.Intents" 1 SIndex 1 []) = false /\
+  local_site_ok (Site "HasPattern:matches" 1 SSliceFrom 1 []) = false /\
+  local_sites_exempt_once [Site "HasPattern:matches" 1 SIndex 0 []; Site "HasPattern:matches" 2 SIndex 0 [];
+                           Site "hasIntent:classification.Intents" 3 SIndex 0 []] = false.
+Proof. vm_compute. repeat split; reflexivity. Qed.
 
 Example local_guard_matters :
   local_site_ok (Site "hasIntent:possibilities" 0 SIndex 0 [GCmp CGt 0]) = true /\
@@ -48,7 +58,8 @@ Proof. vm_compute. split; reflexivity. Qed.
    with the zero-divisor guard, Exponent with its three guards, Repeat with its length guard *)
 Lemma operator_guards_in_source :
   max_number_exponent_src = max_number_exponent /\ max_text_length_src = max_text_length
-  /\ max_render_size_src = max_render_size /\ forallb snd operator_guards = true
+  /\ max_render_size_src = max_render_size /\ max_repeat_length_src = max_repeat_length
+  /\ forallb snd operator_guards = true
   /\ List.length operator_guards = 11%nat.
 Proof. vm_compute. repeat split; reflexivity. Qed.
 
